@@ -409,6 +409,7 @@ def signature(case, real):
 
 class C11(PropertyCheck):
     pid = "C11"
+    claimed = True
     props_modules = ["KDVerif.Props.C11"]
     extra_build = ["KDVerif.Driver.MixWrapper"]
     driver_main = "mains/MixWrapper.lean"
